@@ -36,14 +36,40 @@ TWO_PI = ('bin', '*', C(2), ('ref', 'numpy.pi'))
 
 def run(ctx):
     ctx.trust('Pool.starmap/map return results in submission order; np.concatenate(axis=1) keeps the order of its parts')
-    rule_mask_algebra(ctx, 'C07.R1')
-    rule_grids(ctx, 'C07.R2')
-    rule_schedule(ctx, 'C07.R3')
-    rule_amplitude(ctx, 'C07.R4')
+    ctx.rule(rule_mask_algebra, 'C07.R1')
+    ctx.rule(rule_grids, 'C07.R2')
+    ctx.rule(rule_zero_crossings, 'C07.R2')
+    ctx.rule(rule_schedule, 'C07.R3')
+    ctx.rule(rule_amplitude, 'C07.R4')
     # the mask-frequency estimate and the masked extractions run with the caller's options: the first-IMF estimate is
     # the masked sift's own first extraction only if it sees the same extrema / envelope options
     from .c06 import rule_carrier_flow
-    rule_carrier_flow(ctx, 'C07.R5', only={'emd.sift.mask_sift', 'emd.sift.get_mask_freqs', 'emd.sift.get_next_imf_mask'})
+    ctx.rule(rule_carrier_flow, 'C07.R5', only={'emd.sift.mask_sift', 'emd.sift.get_mask_freqs', 'emd.sift.get_next_imf_mask'})
+
+
+def rule_zero_crossings(ctx, rid):
+    """The 'zc' mask frequency counts sign changes of the first IMF with np.sign, for which an exact zero is its own
+    sign (a zero between two positive samples gives two changes, a zero at a crossing none extra).  np.signbit folds
+    zero into the positive side and halves the count on quantised waves."""
+    P = ctx.P
+    fi = P.func('emd.sift.zero_crossing_count')
+    c = 'zero crossings are counted on np.sign (exact zeros are a sign of their own)'
+    exits = [e for e in Evaluator(P).run(fi) if e.kind == 'return']
+    ctx.paths += len(exits)
+    uses_sign = all(any(t[0] == 'call' and t[1] == 'numpy.sign' for t in subterms(e.value)) for e in exits)
+    signbit = [t for e in exits for t in subterms(e.value) if t[0] == 'call' and t[1] in ('numpy.signbit',)]
+    strict = [t for e in exits for t in subterms(e.value) if t[0] == 'cmp' and t[1] in ('>', '<', '>=', '<=')
+              and (t[3] == C(0) or t[2] == C(0))]
+    if signbit or (strict and not uses_sign):
+        ctx.violation(rid, fi, c, 'the count is taken on %s: samples that are exactly zero are lumped with one side, so a '
+                      'wave with exact zeros gets a different first mask frequency (and with it the whole ladder)'
+                      % ('np.signbit' if signbit else 'a one-sided comparison with 0'),
+                      found=show((signbit or strict)[0])[:80])
+    elif exits and uses_sign:
+        ctx.passed(rid, fi, c)
+    else:
+        ctx.note(rid, fi, c, 'zero-crossing count is not expressed through np.sign: %s'
+                 % (show(exits[0].value)[:80] if exits else 'no return'))
 
 
 def _strip_shape(t):
